@@ -34,6 +34,10 @@ CHECKS = {
     technique="deterministic simulation: seeded histories of variant-changing edits, dev/build and clean commands; directory map monitor, workspace-state-at-script-start seam, clean soundness model",
     text="Along seeded histories the (kind, recipe, variant)->directory map must stay injective and stable, a directory handed to another variant must be empty when its script starts (observed at the seam), clean may only delete workspaces whose content belongs to no current package, dry-run changes nothing, and nothing up to date is rebuilt after clean.",
     note="'Content belongs to a package' is tracked by the harness as the variant of the last script executed in that workspace."),
+ "C08": dict(level="fault_enumeration", engine="faulty-stream", ref="5/C08",
+    technique="fault injection on the byte stream read by the real download+verification path: every truncation length (thorough), bit flips, zeroed blocks, short reads, EIO; hostile member grammar with a sentinel tree",
+    text="Round trips of generated trees must be lossless (canonical serialisation and Bob hash); every injected corruption of the stored artifact must be rejected or yield the identical tree; hostile archives must never be accepted unless content matches their audit and must never touch the sentinel tree around the target. Truncation is enumerated over every length per sampled artifact in the thorough tier.",
+    note="The builder's post-download verification is replayed by the harness with the same calls; cryptographic attacks on SHA-1/CRC are out of scope."),
  "C09": dict(level="fault_enumeration", engine="procsim", ref="5/C09",
     technique="deterministic simulation: seeded one-fs-op-at-a-time scheduling of real uploader/mirror/reader processes with SIGKILL and errno injection at every sim point",
     text="Seeded exploration of process interleavings on one LocalArchive directory with an invariant evaluated on the real directory after every scheduler step; in enumeration cases every sim point of the chosen actor is killed in turn (exhaustive per sampled world/schedule). Sampling, not proof.",
